@@ -683,7 +683,9 @@ CONTRACTS = [
       ensures={"wf": "wf(result)", "V": "V(result) == V(self)", "E": "E(result) == E(self)",
                "W": "all(W(result, k) == W(self, k) for k in E(self))", "M": "all(M(result, k) == M(self, k) for k in E(self))",
                "NM": "all(NM(result, n) == NM(self, n) for n in V(self))", "weighted": "weighted(result) == weighted(self)",
-               "HM": "HM(result) == HM(self)"},
+               "HM": "HM(result) == HM(self)",
+               # incidence metadata is an observable too (get_incidence_metadata): the copy answers as the source does
+               "IM": "all(HASIM(result, k, n) == HASIM(self, k, n) and IM(result, k, n) == IM(self, k, n) for k in Tuple for n in Node)"},
       properties=["C05"]),
     # ------------------------------------------------------------------ neighbours (C01, C08)
     C("get_neighbors", params={"node": "Node", "order": "Opt[Int]", "size": "Opt[Int]"}, result="Set[Int]", pure=True,
